@@ -70,6 +70,8 @@ def check(chk):
     chain_rules(chk, m, 'R4.6')
     from . import shared
     shared.cache_rules(chk, m, 'R4.5')
+    from . import c02
+    c02.r26(chk, m, rule_id='R4.7')       # a stored \end-part that grows by one } per use closes one more group each time
     chk.decline('that every concrete document leaves depth 1 (depends on the document being balanced)')
 
 
@@ -523,6 +525,33 @@ def r43(chk, m, rule_id='R4.3'):
         ok = bool(got - {()}) and got <= allowed
         chk.verdict(R, key, ok, '%s registers in frames %s of a 3-frame stack (0 = global frame, -1 = innermost); expected only %s'
                     % (key, sorted(got), where_txt), chk.where(fn), str(sorted(got)))
+    # a local insertion leaves every enclosing frame as it was (its definitions and its character aliases)
+    for name, extra in (('let', {'dest': DEST, 'source': ESC}), ('let', {'dest': DEST, 'source': OTH}), ('addLocal', {'key': 'd', 'value': MAC})):
+        fn = m.func('plasTeX.Context', 'Context.' + name)
+        h = RegHooks(m, Context)
+        h.keep = lambda ev: False
+        it = A.Interp(model=m, scope=fn, hooks=h, max_iter=4, exc_edges=False, inline=3, heap=True)
+        env = ctx_heap(m, 3)
+        for i, f in enumerate(env['__frames']):
+            f.attrs['__items'] = {'d': 'definition-in-frame-%d' % i} if i < 2 else {}
+            f.attrs['lets'] = {'d': 'alias-in-frame-%d' % i} if i < 2 else {}
+        env['self'].attrs.update({'counters': {}, 'writes': {}, '__items': None})
+        env.update(extra)
+        got = set()
+        for kind, s2, v in it.run_function(fn, env=env):
+            if kind != 'return':
+                got.add('%s %s' % (kind, v))
+                continue
+            fr = s2.env['__frames']
+            got.add(' '.join('frame%d: defs %s aliases %s' % (i, sorted(fr[i].attrs.get('__items', {}).items()) if isinstance(fr[i].attrs.get('__items'), dict) else 'TOP',
+                                                              sorted(fr[i].attrs.get('lets', {}).items()) if isinstance(fr[i].attrs.get('lets'), dict) else 'TOP') for i in (0, 1)))
+        want = ' '.join("frame%d: defs [('d', 'definition-in-frame-%d')] aliases [('d', 'alias-in-frame-%d')]" % (i, i, i) for i in (0, 1))
+        key = 'Context.%s(%s) leaves the enclosing frames alone' % (name, 'a control sequence' if extra.get('source') is ESC else ('a character' if 'source' in extra else 'a macro'))
+        if it.unknown_branches and got != {want}:
+            chk.undecided(R, key, 'test not determined: %s' % it.unknown_branches[:2], chk.where(fn))
+        else:
+            chk.decide(R, key, got, {want}, '%s on the innermost of three frames leaves the two enclosing frames as %s; expected them unchanged (%s) - '
+                       'what was in force before the group must be back after it' % (name, sorted(got), want), chk.where(fn))
     prim = 'plasTeX.Base.TeX.Primitives'
     for cname, want in (('def_', True), ('edef', True), ('gdef', False), ('xdef', False)):
         try:
@@ -565,6 +594,10 @@ class HeapHooks(TableHooks):
                 return own[key]
             state.env['__exc'] = 'KeyError'
             return A.TOP
+        if fname in ('dict.__setitem__', 'super().__setitem__') and isinstance(state.env.get('self'), A.Obj) and len(args) >= 2 \
+           and isinstance(state.env['self'].attrs.get('__own'), dict):
+            state.env['self'].attrs['__own'][args[-2]] = args[-1]
+            return A.NONE
         if fname in ('dict.__contains__', 'super().__contains__') and isinstance(state.env.get('self'), A.Obj):
             return args[-1] in state.env['self'].attrs.get('__own', {})
         if fname in ('dict.keys', 'super().keys') and args and isinstance(args[0], A.Obj):
@@ -646,18 +679,32 @@ def chain_rules(chk, m, rid):
         h = HeapHooks(m, ci)
         h.keep = lambda ev: False
         it = A.Interp(model=m, scope=fn, hooks=h, max_iter=8, exc_edges=False, precise_exc=True, heap=True, inline=6)
-        env = {'self': chain()}
+        top = chain()
+        env = {'self': top, '__top': top}
         env.update(extra)
         outs = it.run_function(fn, env=env)
+        if it.unknown_branches or it.imprecise:
+            chk.undecided(R, 'ContextItem.%s: %s' % (meth, label), '; '.join((it.imprecise + it.unknown_branches)[:2]), chk.where(fn))
+            continue
         got = set()
+
+        def owns(s2):
+            out, f = [], s2.env['__top']
+            while isinstance(f, A.Obj):
+                out.append('%s{%s}' % (f.label, ','.join(sorted(f.attrs.get('__own', {})))))
+                f = f.attrs.get('parent')
+            return ' '.join(out)
         for kind, s2, v in outs:
             if meth == 'keys' and isinstance(v, list) and A.is_concrete(v):
                 v = sorted(v)
             if meth == 'has_key' and (v is None or isinstance(v, bool)):
                 v = bool(v)
-            got.add((kind, repr(v)))
+            got.add((kind, repr(v), owns(s2)))
+        want = {w + ('T{c} M{b} G{a}',) for w in want}
         chk.decide(R, 'ContextItem.%s: %s' % (meth, label), got, want,
-                   'ContextItem.%s(%s) on the innermost of three chained frames {a} <- {b} <- {c} gives %s, expected %s: %s'
+                   'ContextItem.%s(%s) on the innermost of three chained frames {a} <- {b} <- {c} gives (outcome, value, names held by each '
+                   'frame afterwards) %s, expected %s: %s; a lookup must not copy a name into another frame (a later global redefinition '
+                   'would be hidden by the copy)'
                    % (meth, ', '.join('%s=%r' % kv for kv in extra.items()), sorted(got), sorted(want), label), chk.where(fn))
     # unknown names
     fn = m.find_method(Context, '__getitem__')
